@@ -117,6 +117,8 @@ structure SCtx where
   repl : Option (Str → SV → SV)
   plist : Option (List Str)
   cv : Conv
+  /-- the inherited `toJSON` of an object value, applied to the key (`none`: [[Get]] finds nothing callable) -/
+  pj : SV → Str → Option SV
 
 /-- §9.3 ToNumber of a primitive -/
 def toNumberPrim (cv : Conv) : Prim → FV
@@ -180,13 +182,26 @@ def isFiniteF : FV → Bool
   | .fin .. => true
   | _ => false
 
+/-- Type(value) is Object (§8) -/
+def typeIsObject : SV → Bool
+  | .undef | .null | .bool _ | .num _ | .str _ | .raise | .getter .. => false
+  | _ => true
+
+/-- Str step 2: "If Type(value) is Object, then: let toJSON be value.[[Get]]("toJSON"); if
+    IsCallable(toJSON), value := toJSON.[[Call]](value, key)".  A primitive is never asked. -/
+def step2 (pj : SV → Str → Option SV) (key : Str) (v : SV) : SV :=
+  match v with
+  | .undef | .null | .bool _ | .num _ | .str _ | .raise | .getter .. => v
+  | .tojson r => r                               -- an own toJSON
+  | v => (pj v key).getD v                       -- an inherited one, if any
+
 mutual
 /-- Str(key, holder) (steps 1-11), JA and JO; the holder's property value is passed directly.
     `depth` = length of `stack`. -/
 def serial (C : SCtx) : Nat → Nat → Str → SV → WR JV
   | 0, _, _, _ => .oof
   | fuel + 1, depth, key, v0 =>
-    let v1 := viaToJSON (viaGet v0)               -- 1: [[Get]]; 2: toJSON
+    let v1 := step2 C.pj key (viaGet v0)          -- 1: [[Get]]; 2: toJSON
     let v2 := match C.repl with                   -- 3: ReplacerFunction
       | some f => f key v1
       | none => v1
@@ -290,15 +305,15 @@ def renderM (gap : Str) : Str → JMs → Str
     44 :: (sep gap (ind ++ gap) ++ quote k ++ colon gap ++ render gap (ind ++ gap) v ++ renderM gap ind t)
 end
 
-def sctxOf (cv : Conv) : Replacer → SCtx
-  | .none => { repl := none, plist := none, cv := cv }
-  | .list items => { repl := none, plist := some (propertyList cv.numStr items []), cv := cv }
-  | .fn f => { repl := some f, plist := none, cv := cv }
+def sctxOf (cv : Conv) (pj : SV → Str → Option SV) : Replacer → SCtx
+  | .none => { repl := none, plist := none, cv := cv, pj := pj }
+  | .list items => { repl := none, plist := some (propertyList cv.numStr items []), cv := cv, pj := pj }
+  | .fn f => { repl := some f, plist := none, cv := cv, pj := pj }
 
 /-- JSON.stringify(value, replacer, space) -/
-def jsonStringify (cv : Conv) (fuel : Nat) (v : SV) (r : Replacer) (sp : Space) : Out :=
+def jsonStringify (cv : Conv) (pj : SV → Str → Option SV) (fuel : Nat) (v : SV) (r : Replacer) (sp : Space) : Out :=
   if (match sp with | .typeError => true | _ => false) then .typeError else
-  match serial (sctxOf cv r) fuel 0 [] v with
+  match serial (sctxOf cv pj r) fuel 0 [] v with
   | .val t => .text (render (gapOf sp) [] t)
   | .absent => .undef
   | .throw => .typeError
